@@ -665,7 +665,7 @@ func writeExpression(ctx *exprContext, sb *strings.Builder, x parser.Expr) error
 		default:
 			fmt.Fprintf(sb, "/* unhandled %s unary op */ ", x.Op)
 		}
-		if err := writeExpressionMaybeParen(ctx, sb, x.X); err != nil {
+		if err := writeSignOperand(ctx, sb, x.X); err != nil {
 			return err
 		}
 	case *parser.BinaryExpr:
@@ -759,7 +759,7 @@ func writeExpression(ctx *exprContext, sb *strings.Builder, x parser.Expr) error
 		}
 		sb.WriteString(")")
 	case *parser.IndexExpr:
-		if err := writeExpressionMaybeParen(ctx, sb, x.X); err != nil {
+		if err := writeSignOperand(ctx, sb, x.X); err != nil {
 			return err
 		}
 		sb.WriteString("[")
@@ -813,6 +813,30 @@ func writeExpressionMaybeParen(ctx *exprContext, sb *strings.Builder, x parser.E
 
 	sb.WriteString("(")
 	if err := writeExpression(ctx, sb, x); err != nil {
+		return err
+	}
+	sb.WriteString(")")
+	return nil
+}
+
+// writeSignOperand writes the operand of a sign or the base of an index expression.
+// A signed operand is parenthesized:
+// otherwise "-(-x)" would be written as "--x" (a comment in SQL)
+// and "(-x)[i]" as "-x[i]" (which negates the element).
+func writeSignOperand(ctx *exprContext, sb *strings.Builder, x parser.Expr) error {
+	inner := x
+	for {
+		p, ok := inner.(*parser.ParenExpr)
+		if !ok {
+			break
+		}
+		inner = p.X
+	}
+	if _, ok := inner.(*parser.UnaryExpr); !ok {
+		return writeExpressionMaybeParen(ctx, sb, x)
+	}
+	sb.WriteString("(")
+	if err := writeExpression(ctx, sb, inner); err != nil {
 		return err
 	}
 	sb.WriteString(")")
